@@ -10,23 +10,23 @@ LEAN_MODULES = ["NanoVerif.Props.C06"]
 NS = "NanoVerif.C06."
 OBLIGATIONS = [NS + t for t in [
     # losses: sub-gradient inequality of every kernel flagged convex
-    "sum2_subgrad", "mae_subgrad", "mse_subgrad", "hinge_subgrad", "sqhinge_subgrad", "pinball_subgrad",
+    "elementwise_sum_subgrad", "mae_subgrad", "mse_subgrad", "hinge_subgrad", "sqhinge_subgrad", "pinball_subgrad",
     "exponential_subgrad", "logistic_subgrad", "classnll_subgrad", "classnll_subgrad_eps",
+    # values and errors
+    "loss_nonneg", "classnll_nonneg", "error_nonneg", "argmax_spec", "sclass_error_iff_argmax",
+    "mclass_error_eq_count_sign", "binary_error_iff_sign",
     # benchmark functions
     "sphere_subgrad", "axis_ellipsoid_subgrad", "schumer_steiglitz_subgrad", "chung_reynolds_subgrad", "sargan_subgrad",
     "zakharov_subgrad", "rotated_ellipsoid_subgrad", "trid_subgrad", "quadratic_subgrad", "maxq_subgrad",
-    "chained_lq_subgrad", "chained_cb3I_subgrad", "chained_cb3II_subgrad", "kinks_subgrad", "exponential_fn_subgrad",
+    "chained_lq_subgrad", "kinks_subgrad", "chained_cb3I_subgrad", "chained_cb3II_subgrad", "exponential_fn_subgrad",
     "geometric_subgrad",
     # constraints
     "ball_subgrad", "linear_subgrad", "cquad_subgrad", "minimum_subgrad", "maximum_subgrad",
     # composition
-    "affine_comp_subgrad", "sum_subgrad", "ridge_subgrad_mu",
+    "affine_comp_subgrad", "sum_subgrad", "ridge_subgrad_mu", "ridge_partial_subgrad_mu",
     # derivatives of the smooth scalar kernels
-    "mse_hasDerivAt", "sqhinge_hasDerivAt", "logistic_hasDerivAt", "cauchy_hasDerivAt", "savage_hasDerivAt",
-    "tangent_hasDerivAt", "exponential_hasDerivAt",
-    # values and errors
-    "loss_nonneg", "classnll_nonneg", "error_nonneg", "argmax_spec", "sclass_error_iff_argmax",
-    "mclass_error_eq_count_sign", "binary_error_iff_sign",
+    "mse_hasDerivAt", "sqhinge_hasDerivAt", "logistic_hasDerivAt", "exponential_hasDerivAt", "cauchy_hasDerivAt",
+    "savage_hasDerivAt", "tangent_hasDerivAt",
     # declared flags
     "flags_covered", "strong_covered",
 ]]
@@ -69,7 +69,7 @@ RULE = ("corpus; all function prototypes of function_t::all() x dims (quick: 1, 
         "exhaustive for <= 3 outputs) x predictions in [-30,30] incl. 0, +-30, the decision boundary and arg-max ties; batch vs single "
         "evaluation; 11 constraint kinds with random coefficients (symmetric P); linear / gboost bias, scale, grads / surrogate fit "
         "objectives over random in-memory datasets (regression, single-label, multi-label). Tolerances: model vs implementation: relative 1e-9 "
-        "per number or absolute 1e-13 x the largest magnitude of the result line; convexity: violation > 1e-9 x (|f(x)|+|f(z)|+sum|g_i dz_i|+"
+        "per number or absolute 1e-13 x the largest magnitude of the result line (at least 1e-13 for s-classnll: probability minus one); convexity: violation > 1e-9 x (|f(x)|+|f(z)|+sum|g_i dz_i|+"
         "mu/2|dz|^2) + 1e-15; difference quotient: |D - g.dx| > 1e-6 |g.dx| + 2 |D(2h) - 2 D(h)| + 2e-11 x max|f|, relaxed to 'g.dx between the "
         "one-sided differences' for objects not declared smooth. A case is non-trivial when it is a constructed tie/kink/boundary case (#tag) "
         "or has dimension >= 2 (functions, constraints, objectives) / >= 2 outputs (losses); distinct by op text")
@@ -251,9 +251,6 @@ def generic_ops(rng, spec, size, n_cd, n_cvx, climb_steps, x0s=(), tag=None, rad
     tg = f" #{tag}" if tag else ""
     for x in x0s:
         ops.append(f"{spec[0]} eval {spec[1]} {fl(x)}")
-        for _ in range(2):
-            d = direction(rng, size)
-            ops.append(f"{spec[0]} cd {spec[1]} {pts(stencil(x, d, step_for(x)))}{tg}")
         zs = []
         for r in radii:
             zs.append([a + rng.uniform(-r, r) for a in x])
@@ -261,6 +258,9 @@ def generic_ops(rng, spec, size, n_cd, n_cvx, climb_steps, x0s=(), tag=None, rad
             for s in (+1.0, -1.0):
                 zs.append([a + (s * r * rng.uniform(0.1, 1.0) if i == j else 0.0) for i, a in enumerate(x)])
         ops.append(f"{spec[0]} cvx {spec[1]} {pts([x] + zs)}{tg}")
+        for _ in range(2):
+            d = direction(rng, size)
+            ops.append(f"{spec[0]} cd {spec[1]} {pts(stencil(x, d, step_for(x)))}{tg}")
         if climb_steps:
             z = [a + rng.uniform(-0.1, 0.1) for a in x]
             ops.append(f"{spec[0]} climb {spec[1]} {fl(x)} {fl(z)} {climb_steps} {rng.below(1 << 30)} {f2h(max(1.0, max(abs(v) for v in x)) * 1.5)}{tg}")
@@ -269,14 +269,14 @@ def generic_ops(rng, spec, size, n_cd, n_cvx, climb_steps, x0s=(), tag=None, rad
         x = box(rng, size, r)
         if k == 0:
             ops.append(f"{spec[0]} eval {spec[1]} {fl(x)}")
-        ops.append(f"{spec[0]} cd {spec[1]} {pts(stencil(x, direction(rng, size), step_for(x)))}")
+        ops.append(f"{spec[0]} cd {spec[1]} {pts(stencil(x, direction(rng, size), step_for(x)))}{tg if not x0s else ''}")
     for k in range(n_cvx):
         r = radii[k % len(radii)]
         c = box(rng, size, rng.choice([0.0, r, 1.0]))          # centre of the box
         x = [a + rng.uniform(-r, r) for a in c]
         zs = [[a + rng.uniform(-r, r) for a in c] for _ in range(3)]
         zs.append([a + rng.uniform(-r, r) * 1e-3 for a in x])  # a very close pair
-        ops.append(f"{spec[0]} cvx {spec[1]} {pts([x] + zs)}")
+        ops.append(f"{spec[0]} cvx {spec[1]} {pts([x] + zs)}{tg if not x0s else ''}")
     if climb_steps:
         r = rng.choice(radii)
         x = box(rng, size, r)
@@ -503,6 +503,16 @@ def gen_constraints(rng, tier):
             for _ in range(reps):
                 spec, size = ct_spec(rng, kind, n, fn_ids)
                 ops += generic_ops(rng, ("ct", spec), size, n_cd=2, n_cvx=2, climb_steps=(20 if tier == "quick" else 100))
+    # DESIGN §6 item 7: the claim is generated with symmetric P above; a non-symmetric P is accepted by compatible() as
+    # well, so a few are generated too (tagged; any failure on them is keyed quadratic-constraint:nonsymmetric-P)
+    for kind in ("quadratic-eq", "quadratic-ineq"):
+        for n in (2, 3):
+            for _ in range(2 if tier == "quick" else 10):
+                P = [[rng.range(-4, 4) * 0.5 if i != j else rng.range(1, 4) * 1.0 for j in range(n)] for i in range(n)]
+                if all(P[i][j] == P[j][i] for i in range(n) for j in range(n)):
+                    P[0][1] += 1.0
+                spec = f"{kind} {fl([v for row in P for v in row])} {fl(box(rng, n, 1.0))} {f2h(0.5)}"
+                ops += generic_ops(rng, ("ct", spec), n, n_cd=2, n_cvx=2, climb_steps=20, tag="nonsym")
     return ops
 
 
@@ -634,6 +644,8 @@ def compare(aug, impl, model):
     vals = [abs(h2f(x)) for x in a if vlib.is_hexf(x) and len(x) == 16]
     vals = [v for v in vals if v == v and v != math.inf]
     atol = 1e-13 * max(vals + [0.0])
+    if t[0] == "loss" and t[2] == "s-classnll":
+        atol = max(atol, 1e-13)  # soft-max probability (of size 1) minus one at the positive target
     for x, y in zip(a, b):
         if x == y:
             continue
@@ -776,7 +788,10 @@ def check_cd(name, smooth, P, f, g):
         t2 = 1e-6 * max(abs(c1), abs(c2)) + noise + 2.0 * abs(D1 - 2.0 * D2)
         if lo - t2 <= c1 <= hi + t2 and lo - t2 <= c2 <= hi + t2:
             return None
-        return (f"[{name}:difference-quotient:kink] g.dx={c1!r} is not between the one-sided differences {a!r}, {b!r} "
+        key = f"{name}:difference-quotient:kink"
+        if name in ("fn:chained_cb3I", "fn:chained_cb3II") and cb3_on_tie(name, P[0]):
+            key = "chained_cb3-tie-subgradient"
+        return (f"[{key}] g.dx={c1!r} is not between the one-sided differences {a!r}, {b!r} "
                 f"(central {D2!r} vs {gd2!r}, tol {tol:.2e})")
     return f"[{name}:difference-quotient] central difference {D2!r} != g.dx {gd2!r} (|diff| {abs(D2 - gd2):.3e} > tol {tol:.2e})"
 
@@ -799,7 +814,24 @@ def oracle_sample(t):
     return lid, alpha, T, O
 
 
+def nonsymmetric_P(op):
+    t, _ = split_tag(op)
+    if len(t) < 4 or t[0] != "ct" or not t[2].startswith("quadratic"):
+        return False
+    n2 = int(t[3])
+    n = int(round(math.sqrt(n2)))
+    P = [h2f(v) for v in t[4:4 + n2]]
+    return any(P[i * n + j] != P[j * n + i] for i in range(n) for j in range(n))
+
+
 def oracle(op, res):
+    why = oracle_(op, res)
+    if why and nonsymmetric_P(op):
+        why = "[quadratic-constraint:nonsymmetric-P] " + re.sub(r"^\[[^\]]*\]\s*", "", why)
+    return why
+
+
+def oracle_(op, res):
     toks, tag = split_tag(op)
     t = Toks(" ".join(toks))
     r = Toks(res)
